@@ -108,6 +108,18 @@ def shrink(args):
         # strip trailing zeros (exhausted record == zeros)
         while best and best[-1] == 0:
             best = best[:-1]
+        # zero whole blocks first: keeps the alignment of the remaining choices (0 = plainest alternative)
+        size = max(1, len(best) // 2)
+        while size >= 1:
+            i = 0
+            while i < len(best):
+                if any(best[i:i + size]):
+                    cand = best[:i] + [0] * len(best[i:i + size]) + best[i + size:]
+                    r = attempt(cand)
+                    if r is not None:
+                        best, last, improved = _strip(r['choices']), r, True
+                i += size
+            size //= 2
         size = max(1, len(best) // 2)
         while size >= 1:
             i = len(best) - size
